@@ -416,4 +416,136 @@ func specCommand(name string, n int, words string) string {
 //@   ensures[C18] statement-form-runs-the-pipeline: !valueUsed ==> appended(specBlock(c), old(specBlockBefore(c)), "call " + res(strings_Join, calls(strings_Join) - 1, 0)) && len(result0) == 3 && result0[0] == "" && result0[1] == "" && result0[2] == "0" && err == nil
 //@   ensures[C16,C18] value-form-flags-the-capture-helper: valueUsed ==> c.appCallHelperRequired
 
+// ----------------------------------------------------------------------------
+// Pinned helper routines (C03/C05/C16/C17): the body of each routine as reviewed against the
+// cmd.exe manual; ProgramEnd must hand exactly these bodies to addHelper, each exactly when it
+// is needed (a slice copy needs assignment, length get and length set; an assignment needs get
+// and set), and addHelper wraps a body into its begin comment, skip jump, label, exit and end label.
+func specFWH() []string {
+	return []string{
+		"set \"_a=>\"",
+		"if \"%2\" equ \"1\" set \"_a=>>\"",
+		"for /f \"delims=\" %%i in (\"!_fa0!\") do (",
+		"for /f \"delims=\" %%j in ('echo %%i!_a! %~1') do (",
+		"rem",
+		")",
+		"set \"_a=>>\"",
+		")",
+	}
+}
+
+func specACH() []string {
+	return []string{
+		"set \"_h=\"",
+		"set \"_te=\"",
+		"for /f \"delims=\" %%i in ('cmd /V:ON /C \"!_fa0! & echo ^!errorlevel^!\"') do (",
+		"if defined _h set \"_h=!_h!!LF!\"",
+		"set \"_h=!_h!!_te!\"",
+		"set _te=%%i",
+		")",
+	}
+}
+
+func specFRH() []string {
+	return []string{
+		"set \"_h=\"",
+		"for /f \"delims=\" %%i in (%~1) do (",
+		"if defined _h set \"_h=!_h!!LF!\"",
+		"set \"_h=!_h!%%i\"",
+		")",
+	}
+}
+
+func specSCH() []string {
+	return []string{
+		"set \"_i=0\"",
+		"call :_slg %2",
+		":_sch_loop",
+		"if \"!_i!\" lss \"!_len!\" (",
+		"for /f \"delims=\" %%i in (\"%2_!_i!\") do set \"_v=!%%i!\"",
+		"set \"!%1!_!_i!=!_v!\"",
+		"set /A \"_i=!_i!+1\"",
+		"goto :_sch_loop",
+		")",
+		"call :_sls !%1! !_i!",
+	}
+}
+
+func specSAH() []string {
+	return []string{
+		"call :_slg !%1!",
+		"set \"_i=!_len!\"",
+		":_sah_loop",
+		"if \"!_i!\" lss \"%2\" (",
+		"set \"!%1!_!_i!=%3\"",
+		"set /A \"_i=!_i!+1\"",
+		"goto :_sah_loop",
+		") else (",
+		"set /A \"_len=%2+1\"",
+		"call :_sls !%1! !_len!",
+		")",
+		"set \"!%1!_%2=!_fa0!\"",
+	}
+}
+
+func specSLS() []string {
+	return []string{
+		"set \"%1_len=%2\"",
+	}
+}
+
+func specSLG() []string {
+	return []string{
+		"set \"_len=!%1_len!\"",
+	}
+}
+
+func specSTSH() []string {
+	return []string{
+		"set /A \"_sh=(%2-%1)+1\"",
+		"set \"_sub=!_fa0:~%1,%_sh%!\"",
+	}
+}
+
+func specSTLH() []string {
+	return []string{
+		"set _l=0",
+		":_stlhl",
+		"if \"!_fa0!\" equ \"\" (goto :_stlhle) else if \"!_fa0:~%_l%!\" equ \"\" goto :_stlhle",
+		"set /A \"_l=%_l%+1\"",
+		"goto :_stlhl",
+		":_stlhle",
+	}
+}
+
+func specECH() []string {
+	return []string{
+		"if \"!_fa0!\" neq \"\" (echo !_fa0!) else echo.",
+	}
+}
+
+//@ func (*converter).addHelper
+//@   flag modular: true
+//@   loop 1 invariant[C16] body-so-far: len(c.helperCode) == len(old(c.helperCode)) + 4 + rangeindex && samePrefix(old(c.helperCode), c.helperCode) && c.helperCode[len(old(c.helperCode))] == ":: global " + helperType + " helper begin" && c.helperCode[len(old(c.helperCode)) + 1] == "goto :_eo_" + strings.TrimLeft(label, ":") && c.helperCode[len(old(c.helperCode)) + 2] == ":" + strings.TrimLeft(label, ":") && forall(k, 0, rangeindex + 1, c.helperCode[len(old(c.helperCode)) + 3 + k] == code[k]) && sameExcept(c, old(c), "helperCode")
+//@   ensures[C16] wrapped-body: len(c.helperCode) == len(old(c.helperCode)) + 6 + len(code) && samePrefix(old(c.helperCode), c.helperCode) && c.helperCode[len(old(c.helperCode))] == ":: global " + helperType + " helper begin" && c.helperCode[len(old(c.helperCode)) + 1] == "goto :_eo_" + strings.TrimLeft(label, ":") && c.helperCode[len(old(c.helperCode)) + 2] == ":" + strings.TrimLeft(label, ":") && forall(k, 0, len(code), c.helperCode[len(old(c.helperCode)) + 3 + k] == code[k]) && c.helperCode[len(c.helperCode) - 3] == "exit /B" && c.helperCode[len(c.helperCode) - 2] == ":_eo_" + strings.TrimLeft(label, ":") && c.helperCode[len(c.helperCode) - 1] == ":: global " + helperType + " helper end"
+//@   ensures[C16] frame: sameExcept(c, old(c), "helperCode")
+//
+//@ define helperEmitted(d, l, b): exists(k, 0, calls(addHelper), arg(addHelper, k, 1) == d && arg(addHelper, k, 2) == l && seqEq(arg(addHelper, k, 3), b))
+//@ define helperAbsent(l): forall(k, 0, calls(addHelper), arg(addHelper, k, 2) != l)
+//
+//@ func (*converter).ProgramEnd
+//@   ensures[C16,C17] file-write-helper-iff-needed: ((old(c.fileWriteHelperRequired)) ==> helperEmitted("file write", "_fwh", specFWH())) && (!(old(c.fileWriteHelperRequired)) ==> helperAbsent("_fwh"))
+//@   ensures[C16,C18] app-call-helper-iff-needed: ((old(c.appCallHelperRequired)) ==> helperEmitted("app call", "_ach", specACH())) && (!(old(c.appCallHelperRequired)) ==> helperAbsent("_ach"))
+//@   ensures[C16,C17] read-helper-iff-needed: ((old(c.readHelperRequired)) ==> helperEmitted("read", "_frh", specFRH())) && (!(old(c.readHelperRequired)) ==> helperAbsent("_frh"))
+//@   ensures[C03,C05,C16] slice-copy-helper-iff-needed: ((old(c.sliceCopyHelperRequired)) ==> helperEmitted("slice copy", "_sch", specSCH())) && (!(old(c.sliceCopyHelperRequired)) ==> helperAbsent("_sch"))
+//@   ensures[C03,C05,C16] slice-assignment-helper-iff-needed: ((old(c.sliceAssignmentHelperRequired) || old(c.sliceCopyHelperRequired)) ==> helperEmitted("slice assignment", "_sah", specSAH())) && (!(old(c.sliceAssignmentHelperRequired) || old(c.sliceCopyHelperRequired)) ==> helperAbsent("_sah"))
+//@   ensures[C03,C05,C16] slice-length-set-helper-iff-needed: ((old(c.sliceLenSetHelperRequired) || old(c.sliceAssignmentHelperRequired) || old(c.sliceCopyHelperRequired)) ==> helperEmitted("slice length set", "_sls", specSLS())) && (!(old(c.sliceLenSetHelperRequired) || old(c.sliceAssignmentHelperRequired) || old(c.sliceCopyHelperRequired)) ==> helperAbsent("_sls"))
+//@   ensures[C03,C05,C16] slice-length-get-helper-iff-needed: ((old(c.sliceLenGetHelperRequired) || old(c.sliceAssignmentHelperRequired) || old(c.sliceCopyHelperRequired)) ==> helperEmitted("slice length get", "_slg", specSLG())) && (!(old(c.sliceLenGetHelperRequired) || old(c.sliceAssignmentHelperRequired) || old(c.sliceCopyHelperRequired)) ==> helperAbsent("_slg"))
+//@   ensures[C03,C05,C16] string-subscript-helper-iff-needed: ((old(c.stringSubscriptHelperRequired)) ==> helperEmitted("string subscript", "_stsh", specSTSH())) && (!(old(c.stringSubscriptHelperRequired)) ==> helperAbsent("_stsh"))
+//@   ensures[C03,C05,C16] string-length-helper-iff-needed: ((old(c.stringLenHelperRequired)) ==> helperEmitted("string length", "_stlh", specSTLH())) && (!(old(c.stringLenHelperRequired)) ==> helperAbsent("_stlh"))
+//@   ensures[C05,C16] echo-helper-iff-needed: ((old(c.echoHelperRequired)) ==> helperEmitted("echo", "_ech", specECH())) && (!(old(c.echoHelperRequired)) ==> helperAbsent("_ech"))
+//@   ensures[C16] no-helper-twice: forall(k, 0, calls(addHelper), forall(j, k + 1, calls(addHelper), arg(addHelper, k, 2) != arg(addHelper, j, 2)))
+//@   ensures[C05,C16] end-label-and-exit-status: appended(c.endCode, old(c.endCode), ":end", "endlocal & exit /B %_e%") && result == nil
+//@   ensures[C16] program-text-untouched: c.globalCode == old(c.globalCode) && c.functionsCode == old(c.functionsCode) && c.startCode == old(c.startCode)
+
 var _ = strings.TrimSpace
